@@ -265,7 +265,16 @@ class GrammarEval:
                     env[bound] = Opaque(f'{tm}.{a.name}')
             return
         if isinstance(st, ast.FunctionDef):
-            env[st.name] = FuncRef(Action('func', m, st.name, st))
+            node = st
+            fi0 = self.idx.funcs.get(f'{m}:{st.name}')
+            if fi0 is not None and fi0.node is st:
+                # a parse action is read with the small value helpers it calls (functions that reduce to one expression) in place
+                from .inline import inline_fragments
+                try:
+                    node = inline_fragments(self.idx, fi0).node
+                except RecursionError:      # pragma: no cover
+                    node = st
+            env[st.name] = FuncRef(Action('func', m, st.name, node))
             return
         if isinstance(st, ast.ClassDef):
             env[st.name] = Opaque(f'class {st.name}')
